@@ -46,7 +46,6 @@ def chain : Shape → List (TagSet × TagSet)
   | .tagger n g c => chain c ++ [(n, g)]
   | .etod c => if (caps c).currentTags then chain c else []
   | .deco c => chain c
-  | .ffbox _ _ c => chain c
   | _ => []
 
 def untagged (h : List Call) : List (Nat × TagSet) :=
@@ -61,7 +60,7 @@ def specSeen : Shape → List Call → List (List (Nat × TagSet))
   | .tbt, h => [refSeen {} h]
   | .etod c, h => specSeen c h
   | .deco c, h => specSeen c h
-  | .ffbox _ _ c, h => specSeen c h
+  | .fsink _ _ f, h => [if f = .ext then refSeen {} h else untagged h]
   | .tagger n g c, h => specSeen c (taggerV n g h)
   | .tfr c, h => specSeen c h
   | .multi cs, h => specSeenL cs h
@@ -74,7 +73,7 @@ end
 mutual
 def Shape.hasE2s : Shape → Bool
   | .e2s _ => true
-  | .etod c | .deco c | .tagger _ _ c | .tfr c | .ffbox _ _ c => Shape.hasE2s c
+  | .etod c | .deco c | .tagger _ _ c | .tfr c => Shape.hasE2s c
   | .multi cs => Shape.hasE2sL cs
   | _ => false
 def Shape.hasE2sL : List Shape → Bool
@@ -97,7 +96,7 @@ def Call.tagsDisjoint : Call → Bool
 mutual
 def Shape.tagsDisjoint : Shape → Bool
   | .tagger n g c => n &&& g == 0 && Shape.tagsDisjoint c
-  | .etod c | .deco c | .tfr c | .e2s c | .ffbox _ _ c => Shape.tagsDisjoint c
+  | .etod c | .deco c | .tfr c | .e2s c => Shape.tagsDisjoint c
   | .multi cs => Shape.tagsDisjointL cs
   | _ => true
 def Shape.tagsDisjointL : List Shape → Bool
@@ -139,7 +138,6 @@ def taggerBelow : Bool → Shape → Bool
   | _, .e2s c => taggerBelow true c
   | b, .etod c => taggerBelow b c
   | b, .deco c => taggerBelow b c
-  | b, .ffbox _ _ c => taggerBelow b c
   | b, .multi cs => taggerBelowL b cs
   | _, _ => false
 def taggerBelowL : Bool → List Shape → Bool
